@@ -102,7 +102,7 @@ def ensure_target(flavour, src, extra_cxx=(), extra_ld=(), with_rc=True, name=No
     cmd = (["g++", "-std=c++20", "-pthread", "-Wno-deprecated-declarations"] + FLAV_CXX[flavour] + DEFS + list(extra_cxx)
            + include_flags(bdir) + ["-MMD", "-MF", out + ".d", srcp, "-o", out,
               "-L" + os.path.join(bdir, "lib"), "-Wl,-rpath," + os.path.join(bdir, "lib"),
-              "-lpika", "-lfmt", "-lspdlog", "-lhwloc"]
+              "-lpika", "-lfmt", "-lspdlog", "-lhwloc", "-latomic"]
            + (["-lrapidcheck"] if with_rc else []) + list(extra_ld))
     if flavour == "mpi":
         cmd += ["-I/usr/lib/x86_64-linux-gnu/openmpi/include", "-lmpi"]
